@@ -354,7 +354,7 @@ func c11adjOptions(dims []string, vals []string, skips []any) []c11adj {
 func c11run(w *report.W) {
 	seamconfReport(w)
 	lists := [][]string{{}, {"a"}, {"b"}, {"a", "b"}}
-	skips := []any{nil, false, true, "reason"}
+	skips := []any{nil, false, true, "reason", "false"} // a string that spells false is still a string (the quantifier's fourth kind)
 	type scope struct {
 		dims      []string
 		maxAdj    int
@@ -529,7 +529,7 @@ func init() {
 	register(&report.Check{
 		ID: "C11",
 		Rule: "small scope fully open: matrices with an anonymous dimension, 0-2 (3 in the restricted scopes) named dimensions over {os,arch,v}, every value list ⊆ {a,b} incl. empty, " +
-			"0-2 adjustments each a tuple over {a,b,c} or malformed (missing / extra / renamed dimension) x skip in {absent,false,true,string}, nil matrix; x every permutation " +
+			"0-2 adjustments each a tuple over {a,b,c} or malformed (missing / extra / renamed dimension) x skip in {absent,false,true,a reason string,the string \"false\"}, nil matrix; x every permutation " +
 			"= every map from every subset of (dimensions + one unknown) to {a,b,c} and the empty/nil one; built directly and (for <=N adjustments) through Parse of rendered YAML; " +
 			"verdict compared with the predicate of the statement through the public InterpolateMatrixPermutation; on reject deep snapshot + JSON unchanged; on accept the command " +
 			"carries the values. Seam: every iteration order of the four range loops for a 2-dimension sub-scope. Non-trivial = has adjustments and a non-empty permutation.",
